@@ -645,6 +645,28 @@ def step(t):
             return BIN('Mult', args[0], args[0])
         if f == S('pow') and len(args) == 2 and args[1] == C(1):
             return args[0]
+        if f[0] == 'attr' and f[2] == 'split' and not kw and (not args or args == (C(' '),)):
+            # ' '.join(X).split(): X again, when every element of X is a non-empty token without blanks ('0', str(<number>))
+            x = f[1]
+            while x[0] == 'fstr' and len(x[1]) == 1:
+                x = x[1][0]
+            if x[0] == 'sjoin' and x[1] == C(' '):
+                def atomic(e):
+                    if e[0] == 'const':
+                        return isinstance(e[1], str) and e[1] != '' and not any(ch.isspace() for ch in e[1])
+                    if e[0] == 'fstr':
+                        return bool(e[1]) and all((p_[0] == 'const' and isinstance(p_[1], str) and not any(ch.isspace() for ch in p_[1])) or
+                                                  (p_[0] == 'attr' and p_[2] in ('projectID', 'studentID', 'lecturerID')) for p_ in e[1]) \
+                            and any(p_[0] == 'attr' or (p_[0] == 'const' and p_[1] != '') for p_ in e[1])
+                    return False
+                arr = x[2]
+                elems = []
+                if arr[0] == 'accum' and arr[1][0] == 'array':
+                    elems = [arr[1][3]] + [v_ for _, _, v_, _ in arr[2]]
+                elif arr[0] == 'array':
+                    elems = [arr[3]]
+                if elems and all(atomic(e) for e in elems):
+                    return arr
         if f[0] == 'attr' and f[2] == 'count' and len(args) == 1 and not kw and f[1][0] in ('comp', 'array', 'accum'):
             # X.count(k) == number of elements of X equal to k
             x = f[1]
